@@ -41,12 +41,12 @@ pub enum Mode {
     C04,
 }
 
-fn canon(v: f32) -> u32 {
+pub(crate) fn canon(v: f32) -> u32 {
     if v.is_nan() { 0x7fc0_0000 } else { v.to_bits() }
 }
 
 #[derive(Clone, Debug, PartialEq)]
-enum Res {
+pub(crate) enum Res {
     Point(Vec<u32>),
     Interval(Vec<[u32; 2]>),
     Float(Vec<Vec<u32>>),
@@ -63,7 +63,7 @@ struct PtRes {
 }
 
 impl Res {
-    fn digest(&self) -> u64 {
+    pub(crate) fn digest(&self) -> u64 {
         let mut h = 7u64;
         match self {
             Res::Point(v) => v.iter().for_each(|x| h = mix(h, *x as u64)),
@@ -83,7 +83,7 @@ impl Res {
     }
 }
 
-fn ev_point<F: Function>(
+pub(crate) fn ev_point<F: Function>(
     ev: &mut F::PointEval,
     tape: &PTape<F>,
     vars: &[f32],
@@ -109,7 +109,7 @@ fn ev_point<F: Function>(
     }
 }
 
-fn ev_interval<F: Function>(
+pub(crate) fn ev_interval<F: Function>(
     ev: &mut F::IntervalEval,
     tape: &ITape<F>,
     vars: &[Interval],
@@ -139,7 +139,7 @@ fn ev_interval<F: Function>(
     }
 }
 
-fn ev_float<F: Function>(
+pub(crate) fn ev_float<F: Function>(
     ev: &mut F::FloatSliceEval,
     tape: &FTape<F>,
     vars: &[Vec<f32>],
@@ -171,7 +171,7 @@ fn ev_float<F: Function>(
     }
 }
 
-fn ev_grad<F: Function>(
+pub(crate) fn ev_grad<F: Function>(
     ev: &mut F::GradSliceEval,
     tape: &GTape<F>,
     vars: &[Vec<Grad>],
